@@ -106,7 +106,9 @@ fixed_divisionf(x, y) ==
 fixed_division_by_scalar(lh, t, n) ==
    IF n # Z0
    THEN IF ~t.signed /\ t.bits >= W /\ (IntMax \prec n) THEN Z0
-        ELSE SDiv(lh, promote_type_to_signed(t, n))
+        ELSE LET d == promote_type_to_signed(t, n) IN
+             IF t.signed /\ d = ZNeg(Z1) THEN WSub(Z0, lh)                   \* after "fix: fixed / integer traps ... divided by -1"
+             ELSE SDiv(lh, d)
    ELSE quiet_NaN_result
 
 (* math.h:564 ceil *)
